@@ -338,4 +338,210 @@ theorem ocLoop_spec (t : BmTable) : ∀ (fuel : Nat) (ts : List BT) (ids : List 
             simp [BT.sizeL, BT.size]
           · intro x hx; rw [h3 x hx]; simp [firstId]
 
+/-! ## `build_outline` -/
+
+/-- the outline root dictionary `build_outline` creates -/
+def rootDict (ts : List BT) (m : Nat) : Dict :=
+  (setOpt (setOpt [] OLR_FIRST (firstId ts m)) OLR_LAST (lastId ts m)).set OLR_COUNT (.int ts.length)
+
+/-- **outline_links.** For every bookmark table that represents a forest `ts` (any depth, fan-out;
+`rep_addAll` below shows every sequence of `add_bookmark` calls yields such a table), every old
+`max_id` and all sufficient fuel, `build_outline` succeeds, the root gets number `max_id + 1`,
+`max_id` advances by `1 + 2·#bookmarks`, the root dictionary has First/Last/Count of the top level,
+and the created objects embed the forest: `EmbL` states for every bookmark — at every depth — that its
+item dictionary is exactly {Parent = its parent, Title, A → its action [page /Fit] /GoTo, F, C,
+Prev = previous sibling iff one exists, First/Last/Count = first/last/number of children iff it has
+children, Next = next sibling iff one exists}, siblings in insertion order, preorder numbering. -/
+theorem outline_links (s : BmState) (ts : List BT) (maxId fuel : Nat)
+    (hrep : repL s.table s.roots ts = true) (hne : ts ≠ []) (hfuel : BT.sizeL ts ≤ fuel) :
+    ∃ b, buildOutline fuel s maxId = some (some b) ∧ b.root = (maxId + 1, 0) ∧
+      b.maxId = maxId + 1 + 2 * BT.sizeL ts ∧
+      b.objs.get (maxId + 1, 0) = some (rootDict ts (maxId + 1)) ∧
+      EmbL b.objs.get (maxId + 1) (maxId + 1, 0) none ts := by
+  obtain ⟨pr', hrun, _, _, hemb⟩ := ocLoop_spec s.table fuel ts s.roots (maxId + 1) (maxId + 1, 0) none none []
+    hrep hfuel rfl (by intro x hx; cases hx)
+  have hroots : s.roots.isEmpty = false := by
+    have := repL_length hrep
+    cases hr : s.roots with
+    | nil => rw [hr] at this; cases ts with
+      | nil => exact absurd rfl hne
+      | cons _ _ => simp at this
+    | cons _ _ => rfl
+  have hl : (match lastId ts (maxId + 1) with | some l => some l | none => none) = lastId ts (maxId + 1) := by
+    cases lastId ts (maxId + 1) <;> rfl
+  simp only [Option.isSome_none, Bool.false_eq_true, if_false, hl] at hrun
+  refine ⟨{ root := (maxId + 1, 0), maxId := maxId + 1 + 2 * BT.sizeL ts,
+             objs := pr'.put (maxId + 1, 0) (rootDict ts (maxId + 1)) }, ?_, rfl, rfl, ?_, ?_⟩
+  · simp only [buildOutline, hroots, Bool.false_eq_true, if_false, hrun, rootDict, repL_length hrep]
+  · simp [Proc.get_put]
+  · refine EmbL_congr _ ts (Nat.le_refl _) pr'.get _ (maxId + 1) _ _ ?_ hemb
+    intro k hk _
+    have : ¬ ((maxId + 1, 0) : ObjId) = (k, 0) := by simp; omega
+    simp [Proc.get_put, this]
+
+/-! ## fresh, pairwise distinct identifiers -/
+
+def Proc.keys (p : Proc) : List ObjId := p.map (·.1)
+
+theorem Proc.keys_modify (p : Proc) (x : ObjId) (f : Dict → Dict) : (p.modify x f).keys = p.keys := by
+  induction p with
+  | nil => rfl
+  | cons e r ih =>
+    obtain ⟨k, d⟩ := e
+    simp only [Proc.modify]
+    split
+    · simp [Proc.keys]
+    · simp only [Proc.keys, List.map_cons] at ih ⊢; rw [ih]
+
+theorem Proc.keys_put (p : Proc) (k : ObjId) (d : Dict) : (p.put k d).keys = k :: p.keys := rfl
+
+theorem linkStep_keys {first last : Option ObjId} {pr pr1 : Proc} {child c1 : Dict} {id : ObjId}
+    {f' : Option ObjId} (h : linkStep first last pr child id = some (f', pr1, c1)) : pr1.keys = pr.keys := by
+  unfold linkStep at h
+  split at h
+  · cases h; rfl
+  · split at h
+    · split at h
+      · cases h
+      · cases h; exact Proc.keys_modify _ _ _
+    · cases h; rfl
+
+/-- Whatever the table: if the `outline_child` loop finishes, the counter only grows, every key of
+`processed` is an old key or a generation-0 id with a number in `(m, m']`, and distinct keys stay
+distinct (no identifier is handed out twice, none collides with an existing one). -/
+theorem ocLoop_keys (t : BmTable) : ∀ (fuel m : Nat) (parent : ObjId) (ids : List Nat) (first last : Option ObjId)
+    (pr : Proc) (m' : Nat) (f' l' : Option ObjId) (pr' : Proc),
+    ocLoop t fuel m parent ids first last pr = some (m', f', l', pr') →
+    m ≤ m' ∧ (∀ k ∈ pr'.keys, k ∈ pr.keys ∨ (k.2 = 0 ∧ m < k.1 ∧ k.1 ≤ m')) ∧
+    ((∀ k ∈ pr.keys, k.1 ≤ m) → pr.keys.Nodup → pr'.keys.Nodup) := by
+  intro fuel
+  induction fuel with
+  | zero =>
+    intro m parent ids first last pr m' f' l' pr' h
+    cases ids with
+    | nil => simp only [ocLoop, Option.some.injEq, Prod.mk.injEq] at h; obtain ⟨rfl, _, _, rfl⟩ := h
+             exact ⟨Nat.le_refl _, fun k hk => Or.inl hk, fun _ hn => hn⟩
+    | cons i rest => simp [ocLoop] at h
+  | succ f ih =>
+    intro m parent ids first last pr m' f' l' pr' h
+    cases ids with
+    | nil => simp only [ocLoop, Option.some.injEq, Prod.mk.injEq] at h; obtain ⟨rfl, _, _, rfl⟩ := h
+             exact ⟨Nat.le_refl _, fun k hk => Or.inl hk, fun _ hn => hn⟩
+    | cons i rest =>
+      rw [ocLoop] at h
+      cases hb : t.get i with
+      | none => simp [hb] at h
+      | some b =>
+        simp only [hb] at h
+        cases hls : linkStep first last pr (baseItem parent b.title b.format b.color (m + 2, 0)) (m + 1, 0) with
+        | none => simp [hls] at h
+        | some res =>
+          obtain ⟨first', pr1, child1⟩ := res
+          have hk1 := linkStep_keys hls
+          simp only [hls] at h
+          -- the state handed to the remaining siblings, for any `pr2` whose keys are old or in (m+2, m1]
+          have tail : ∀ (pr2 : Proc) (m1 : Nat) (child2 : Dict), m + 2 ≤ m1 →
+              (∀ k ∈ pr2.keys, k ∈ pr.keys ∨ (k.2 = 0 ∧ m + 2 < k.1 ∧ k.1 ≤ m1)) →
+              ((∀ k ∈ pr.keys, k.1 ≤ m) → pr.keys.Nodup → pr2.keys.Nodup) →
+              ocLoop t f m1 parent rest first' (some (m + 1, 0))
+                ((pr2.put (m + 1, 0) child2).put (m + 2, 0) (infoDict b.page)) = some (m', f', l', pr') →
+              m ≤ m' ∧ (∀ k ∈ pr'.keys, k ∈ pr.keys ∨ (k.2 = 0 ∧ m < k.1 ∧ k.1 ≤ m')) ∧
+                ((∀ k ∈ pr.keys, k.1 ≤ m) → pr.keys.Nodup → pr'.keys.Nodup) := by
+            intro pr2 m1 child2 hm1 hin hnd hrun
+            obtain ⟨a1, a2, a3⟩ := ih _ _ _ _ _ _ _ _ _ _ hrun
+            refine ⟨by omega, ?_, ?_⟩
+            · intro k hk
+              rcases a2 k hk with h1 | ⟨h1, h2, h3⟩
+              · simp only [Proc.keys_put, List.mem_cons] at h1
+                rcases h1 with rfl | rfl | h1
+                · right; simp; omega
+                · right; simp; omega
+                · rcases hin k h1 with h4 | ⟨h4, h5, h6⟩
+                  · exact Or.inl h4
+                  · right; exact ⟨h4, by omega, by omega⟩
+              · right; exact ⟨h1, by omega, h3⟩
+            · intro hle hn
+              apply a3
+              · intro k hk
+                simp only [Proc.keys_put, List.mem_cons] at hk
+                rcases hk with rfl | rfl | hk
+                · simp; omega
+                · simp; omega
+                · rcases hin k hk with h4 | ⟨_, _, h6⟩
+                  · have := hle k h4; omega
+                  · exact h6
+              · simp only [Proc.keys_put, List.nodup_cons, List.mem_cons]
+                refine ⟨?_, ?_, hnd hle hn⟩
+                · intro hmem
+                  rcases hmem with e | hmem
+                  · simp at e
+                  · rcases hin _ hmem with h4 | ⟨_, h5, _⟩
+                    · have := hle _ h4; simp at this; omega
+                    · simp at h5
+                · intro hmem
+                  rcases hin _ hmem with h4 | ⟨_, h5, _⟩
+                  · have := hle _ h4; simp at this; omega
+                  · simp at h5
+          by_cases hce : b.children.isEmpty = true
+          · simp only [hce, if_true] at h
+            exact tail pr1 (m + 2) child1 (Nat.le_refl _) (fun k hk => Or.inl (hk1 ▸ hk))
+              (fun _ hn => hk1 ▸ hn) h
+          · simp only [hce, Bool.false_eq_true, if_false] at h
+            cases hin : ocLoop t f (m + 2) (m + 1, 0) b.children none none pr1 with
+            | none => simp [hin] at h
+            | some res2 =>
+              obtain ⟨m1, cf, cl, pr2⟩ := res2
+              simp only [hin] at h
+              obtain ⟨b1, b2, b3⟩ := ih _ _ _ _ _ _ _ _ _ _ hin
+              exact tail pr2 m1 _ b1
+                (fun k hk => by
+                  rcases b2 k hk with h1 | h1
+                  · exact Or.inl (hk1 ▸ h1)
+                  · exact Or.inr h1)
+                (fun hle hn => b3 (fun k hk => by have := hle k (hk1 ▸ hk); omega) (hk1 ▸ hn)) h
+
+/-- **fresh identifiers.** Every object `build_outline` creates has generation 0 and a number in
+`(max_id, new max_id]`, and no identifier is used twice. -/
+theorem outline_ids_fresh (s : BmState) (maxId fuel : Nat) (b : Built)
+    (h : buildOutline fuel s maxId = some (some b)) :
+    maxId < b.maxId ∧ b.objs.keys.Nodup ∧ ∀ k ∈ b.objs.keys, k.2 = 0 ∧ maxId < k.1 ∧ k.1 ≤ b.maxId := by
+  unfold buildOutline at h
+  split at h
+  · cases h
+  · cases hrun : ocLoop s.table fuel (maxId + 1) (maxId + 1, 0) s.roots none none [] with
+    | none => simp [hrun] at h
+    | some res =>
+      obtain ⟨m', f', l', pr'⟩ := res
+      simp only [hrun, Option.some.injEq] at h
+      subst h
+      obtain ⟨a1, a2, a3⟩ := ocLoop_keys _ _ _ _ _ _ _ _ _ _ _ _ hrun
+      refine ⟨by simp; omega, ?_, ?_⟩
+      · simp only [Proc.keys_put, List.nodup_cons]
+        refine ⟨?_, a3 (by intro k hk; simp [Proc.keys] at hk) (by simp [Proc.keys])⟩
+        intro hmem
+        rcases a2 _ hmem with h1 | ⟨_, h2, _⟩
+        · simp [Proc.keys] at h1
+        · simp at h2
+      · intro k hk
+        simp only [Proc.keys_put, List.mem_cons] at hk
+        rcases hk with rfl | hk
+        · simp; omega
+        · rcases a2 k hk with h1 | ⟨h1, h2, h3⟩
+          · simp [Proc.keys] at h1
+          · exact ⟨h1, by omega, h3⟩
+
+/-- installing the built objects: a created id reads back its dictionary, every other id is untouched -/
+theorem installObjs_get (os : Objects) (new : Proc) (q : ObjId) :
+    (installObjs os new).get q = match new.get q with
+      | some d => some (.dict d)
+      | none => os.get q := by
+  induction new with
+  | nil => simp [installObjs, Proc.get]
+  | cons e r ih =>
+    obtain ⟨k, d⟩ := e
+    simp only [installObjs, List.map_cons, List.cons_append, Objects.get, Proc.get] at ih ⊢
+    by_cases hk : k = q
+    · simp [hk]
+    · simp only [hk, if_false]; exact ih
+
 end Lopdf
